@@ -78,31 +78,31 @@ func c07Generic(tok Token, last Package, N int) {
 func HarnessC07_Done()         { c07Generic(TDS_DONE, nil, c07N(9, 9)) }
 func HarnessC07_DoneProc()     { c07Generic(TDS_DONEPROC, nil, c07N(9, 9)) }
 func HarnessC07_DoneInProc()   { c07Generic(TDS_DONEINPROC, nil, c07N(9, 9)) }
-func HarnessC07_EED()          { c07Generic(TDS_EED, nil, c07N(20, 24)) }
-func HarnessC07_Error()        { c07Generic(TDS_ERROR, nil, c07N(14, 20)) }
-func HarnessC07_LoginAck()     { c07Generic(TDS_LOGINACK, nil, c07N(14, 20)) }
+func HarnessC07_EED()          { c07Generic(TDS_EED, nil, c07N(20, 22)) }
+func HarnessC07_Error()        { c07Generic(TDS_ERROR, nil, c07N(14, 16)) }
+func HarnessC07_LoginAck()     { c07Generic(TDS_LOGINACK, nil, c07N(14, 16)) }
 func HarnessC07_Msg()          { c07Generic(TDS_MSG, nil, c07N(6, 6)) }
-func HarnessC07_ParamFmt()     { c07Generic(TDS_PARAMFMT, nil, c07N(10, 16)) }
-func HarnessC07_ParamFmt2()    { c07Generic(TDS_PARAMFMT2, nil, c07N(16, 26)) }
-func HarnessC07_RowFmt()       { c07Generic(TDS_ROWFMT, nil, c07N(11, 16)) }
-func HarnessC07_RowFmt2()      { c07Generic(TDS_ROWFMT2, nil, c07N(18, 26)) }
-func HarnessC07_Capability()   { c07Generic(TDS_CAPABILITY, nil, c07N(7, 10)) }
-func HarnessC07_EnvChange()    { c07Generic(TDS_ENVCHANGE, nil, c07N(10, 16)) }
-func HarnessC07_Language()     { c07Generic(TDS_LANGUAGE, nil, c07N(10, 16)) }
-func HarnessC07_OrderBy()      { c07Generic(TDS_ORDERBY, &RowFmtPackage{}, c07N(6, 10)) }
-func HarnessC07_OrderBy2()     { c07Generic(TDS_ORDERBY2, &RowFmtPackage{}, c07N(10, 14)) }
+func HarnessC07_ParamFmt()     { c07Generic(TDS_PARAMFMT, nil, c07N(10, 12)) }
+func HarnessC07_ParamFmt2()    { c07Generic(TDS_PARAMFMT2, nil, c07N(16, 18)) }
+func HarnessC07_RowFmt()       { c07Generic(TDS_ROWFMT, nil, c07N(11, 13)) }
+func HarnessC07_RowFmt2()      { c07Generic(TDS_ROWFMT2, nil, c07N(18, 20)) }
+func HarnessC07_Capability()   { c07Generic(TDS_CAPABILITY, nil, c07N(7, 9)) }
+func HarnessC07_EnvChange()    { c07Generic(TDS_ENVCHANGE, nil, c07N(10, 12)) }
+func HarnessC07_Language()     { c07Generic(TDS_LANGUAGE, nil, c07N(10, 12)) }
+func HarnessC07_OrderBy()      { c07Generic(TDS_ORDERBY, &RowFmtPackage{}, c07N(6, 8)) }
+func HarnessC07_OrderBy2()     { c07Generic(TDS_ORDERBY2, &RowFmtPackage{}, c07N(10, 12)) }
 func HarnessC07_ReturnStatus() { c07Generic(TDS_RETURNSTATUS, nil, c07N(5, 5)) }
 func HarnessC07_Logout()       { c07Generic(TDS_LOGOUT, nil, c07N(2, 2)) }
-func HarnessC07_Dynamic()      { c07Generic(TDS_DYNAMIC, nil, c07N(12, 18)) }
-func HarnessC07_Dynamic2()     { c07Generic(TDS_DYNAMIC2, nil, c07N(14, 20)) }
-func HarnessC07_CurDeclare()   { c07Generic(TDS_CURDECLARE, nil, c07N(12, 18)) }
-func HarnessC07_CurDeclare3()  { c07Generic(TDS_CURDECLARE3, nil, c07N(16, 22)) }
-func HarnessC07_CurInfo()      { c07Generic(TDS_CURINFO, nil, c07N(12, 18)) }
-func HarnessC07_CurInfo3()     { c07Generic(TDS_CURINFO3, nil, c07N(20, 24)) }
-func HarnessC07_CurOpen()      { c07Generic(TDS_CUROPEN, nil, c07N(10, 14)) }
-func HarnessC07_CurFetch()     { c07Generic(TDS_CURFETCH, nil, c07N(12, 16)) }
-func HarnessC07_CurUpdate()    { c07Generic(TDS_CURUPDATE, nil, c07N(12, 16)) }
-func HarnessC07_CurDelete()    { c07Generic(TDS_CURDELETE, nil, c07N(10, 14)) }
+func HarnessC07_Dynamic()      { c07Generic(TDS_DYNAMIC, nil, c07N(12, 14)) }
+func HarnessC07_Dynamic2()     { c07Generic(TDS_DYNAMIC2, nil, c07N(14, 16)) }
+func HarnessC07_CurDeclare()   { c07Generic(TDS_CURDECLARE, nil, c07N(12, 14)) }
+func HarnessC07_CurDeclare3()  { c07Generic(TDS_CURDECLARE3, nil, c07N(16, 18)) }
+func HarnessC07_CurInfo()      { c07Generic(TDS_CURINFO, nil, c07N(12, 14)) }
+func HarnessC07_CurInfo3()     { c07Generic(TDS_CURINFO3, nil, c07N(20, 22)) }
+func HarnessC07_CurOpen()      { c07Generic(TDS_CUROPEN, nil, c07N(10, 12)) }
+func HarnessC07_CurFetch()     { c07Generic(TDS_CURFETCH, nil, c07N(12, 14)) }
+func HarnessC07_CurUpdate()    { c07Generic(TDS_CURUPDATE, nil, c07N(12, 14)) }
+func HarnessC07_CurDelete()    { c07Generic(TDS_CURDELETE, nil, c07N(10, 12)) }
 
 // PARAMS / ROW data after a fixed format (value readers incl. text pointers)
 func c07Fmt(types ...asetypes.DataType) *ParamFmtPackage {
